@@ -43,6 +43,10 @@ func init() {
 				Old: "\t\tprocessMethodSet(named, types.NewMethodSet(types.NewPointer(named.Type())))\n", New: ""},
 			{Name: "only-generic-free-interfaces-tested", File: "unused/unused.go", Rule: "R7.5", KeyPart: "tests-every-collected-interface",
 				Old: "\tfor _, typ := range g.interfaceTypes {\n\t\tallInterfaces[typ] = struct{}{}\n\t}", New: "\tfor _, typ := range g.interfaceTypes {\n\t\tif typ.NumEmbeddeds() == 0 {\n\t\t\tallInterfaces[typ] = struct{}{}\n\t\t}\n\t}"},
+			{Name: "shared-initializer-read-for-first-name-only", File: "unused/unused.go", Rule: "R7.6", KeyPart: "uses-its-initializer",
+				Old: "\t\t\t\t\t\t\tpanic(g.fset.PositionFor(vspec.Pos(), false))\n\t\t\t\t\t\t}\n\t\t\t\t\t\tg.read(vspec.Values[0], obj)\n", New: "\t\t\t\t\t\t\tpanic(g.fset.PositionFor(vspec.Pos(), false))\n\t\t\t\t\t\t}\n\t\t\t\t\t\tif i == 0 {\n\t\t\t\t\t\t\tg.read(vspec.Values[0], obj)\n\t\t\t\t\t\t}\n"},
+			{Name: "const-type-not-read", File: "unused/unused.go", Rule: "R7.6", KeyPart: "uses-its-type",
+				Old: "\t\t\t\t\tg.see(obj, by)\n\t\t\t\t\tg.read(vspec.Type, obj)\n\n\t\t\t\t\tif len(vspec.Values) != 0 {", New: "\t\t\t\t\tg.see(obj, by)\n\n\t\t\t\t\tif len(vspec.Values) != 0 {"},
 			{Name: "slice-max-not-read", File: "unused/unused.go", Rule: "R7.1", KeyPart: "read/*ast.SliceExpr.Max",
 				Old: "\t\tg.read(node.High, by)\n\t\tg.read(node.Max, by)\n", New: "\t\tg.read(node.High, by)\n"},
 			{Name: "func-results-not-read", File: "unused/unused.go", Rule: "R7.1", KeyPart: "read/*ast.FuncType.Results",
@@ -502,13 +506,26 @@ func runC07(c *Ctx) {
 		res := c.Func("unused", "(*SerializedGraph).Results")
 		var appends []ssa.Instruction
 		fields := map[string]bool{}
+		// the appends that feed one of the three result lists: directly (append(res.Used, …)) or through a
+		// local slice that ends up in the Result's field
+		feeds := func(call *ssa.Call, f string) bool {
+			if DerivesLocal(call.Call.Args[0], IsFieldOf("unused.Result", f)) {
+				return true
+			}
+			for _, v := range storedToField(res, "unused.Result", f) {
+				if Derives(v, func(x ssa.Value) bool { return x == ssa.Value(call) }) {
+					return true
+				}
+			}
+			return false
+		}
 		Instrs(res, false, func(in ssa.Instruction) {
 			call, ok := in.(*ssa.Call)
 			if !ok || !IsCallTo(call, "builtin.append") {
 				return
 			}
 			for _, f := range []string{"Used", "Unused", "Quiet"} {
-				if DerivesLocal(call.Call.Args[0], IsFieldOf("unused.Result", f)) {
+				if feeds(call, f) {
 					fields[f] = true
 					appends = append(appends, call)
 				}
@@ -586,9 +603,12 @@ func runC07(c *Ctx) {
 				c.Undecided("(*graph).decl no longer looks up the declared type name / appends to namedTypes")
 			}
 			// alias declarations (tspec.Assign.IsValid()) are the one legitimate way around the append
-			alias := CallTrueEdges(decl, func(call *ssa.Call) bool {
-				return strings.HasSuffix(CalleeName(&call.Call), "token.Pos.IsValid") && DerivesLocal(call.Call.Args[0], IsFieldOf("ast.TypeSpec", "Assign"))
-			})
+			alias := UnionEdges(
+				CallTrueEdges(decl, func(call *ssa.Call) bool {
+					return strings.HasSuffix(CalleeName(&call.Call), "token.Pos.IsValid") && DerivesLocal(call.Call.Args[0], IsFieldOf("ast.TypeSpec", "Assign"))
+				}),
+				// tspec.Assign != token.NoPos, > 0, … spelled as a comparison
+				IntCmpConstEdges(decl, func(v ssa.Value) bool { return DerivesLocal(v, IsFieldOf("ast.TypeSpec", "Assign")) }, true, func(lo, hi int64) bool { return lo >= 1 }))
 			t, path := PathAvoiding(decl, objCall, func(in ssa.Instruction) bool {
 				if _, ok := in.(*ssa.Return); ok {
 					return true
@@ -618,27 +638,7 @@ func runC07(c *Ctx) {
 			if start == nil || len(stores) == 0 {
 				c.Undecided("(*graph).read has no *ast.InterfaceType case / no append to interfaceTypes")
 			}
-			empty := CondEdges(read, func(cond ssa.Value) (bool, bool) {
-				bin, ok := cond.(*ssa.BinOp)
-				if !ok {
-					return false, false
-				}
-				isLen := func(v ssa.Value) bool {
-					call, ok := v.(*ssa.Call)
-					return ok && IsCallTo(call, "builtin.len") && DerivesLocal(call.Call.Args[0], IsFieldOf("ast.FieldList", "List"))
-				}
-				zero := func(v ssa.Value) bool { k, ok := ConstInt(v); return ok && k == 0 }
-				if !(isLen(bin.X) && zero(bin.Y)) {
-					return false, false
-				}
-				switch bin.Op {
-				case token.NEQ, token.GTR:
-					return true, false // the false edge is "no methods"
-				case token.EQL, token.LEQ:
-					return true, true
-				}
-				return false, false
-			})
+			empty := LenZeroEdges(read, func(v ssa.Value) bool { return DerivesLocal(v, IsFieldOf("ast.FieldList", "List")) })
 			t, path := PathAvoiding(read, start, func(in ssa.Instruction) bool {
 				_, ok := in.(*ssa.Return)
 				return ok
@@ -667,28 +667,46 @@ func runC07(c *Ctx) {
 			elem := loopLoads[0].(*ssa.UnOp)
 			var ms []*ssa.Call // calls that receive a method set of the element
 			ptr, val := false, false
+			isNewPtr := func(v ssa.Value) bool {
+				call, ok := v.(*ssa.Call)
+				return ok && CalleeName(&call.Call) == "go/types.NewPointer"
+			}
 			for _, ci := range Calls(entry, false) {
 				call, ok := ci.(*ssa.Call)
 				if !ok || call.Block() != elem.Block() && !elem.Block().Dominates(call.Block()) {
 					continue
 				}
-				if call.Call.StaticCallee() != nil && call.Call.StaticCallee().Parent() == entry || func() bool {
-					_, isClosure := call.Call.Value.Type().Underlying().(*types.Signature)
-					return isClosure && call.Call.StaticCallee() == nil && !call.Call.IsInvoke()
-				}() {
-					args := call.Call.Args
-					if len(args) < 2 || !Derives(args[0], func(v ssa.Value) bool { return v == ssa.Value(elem) }) {
-						continue
+				if callee := call.Call.StaticCallee(); callee != nil && !FuncInModule(callee) {
+					continue // only the package's own processing (a closure, a function or a method)
+				}
+				if call.Call.IsInvoke() {
+					continue
+				}
+				all := CallArgs(&call.Call)
+				fromElem := false
+				for _, a := range all {
+					if Derives(a, func(v ssa.Value) bool { return v == ssa.Value(elem) }) {
+						fromElem = true
 					}
-					for x := range BackSlice(args[1], SliceOpts{}) {
-						if nm, ok := x.(*ssa.Call); ok && CalleeName(&nm.Call) == "go/types.NewMethodSet" {
-							if Derives(nm.Call.Args[0], IsCallResult("go/types.NewPointer")) {
+				}
+				if !fromElem {
+					continue
+				}
+				for _, a := range all {
+					for x := range BackSlice(a, SliceOpts{}) {
+						nm, ok := x.(*ssa.Call)
+						if !ok || CalleeName(&nm.Call) != "go/types.NewMethodSet" {
+							continue
+						}
+						// what the method set is taken of: T (a Type() not below NewPointer) and/or *T
+						for y := range BackSlice(nm.Call.Args[0], SliceOpts{Stop: isNewPtr}) {
+							if isNewPtr(y) {
 								ptr = true
-							} else {
+							} else if yc, ok := y.(*ssa.Call); ok && strings.HasSuffix(CalleeName(&yc.Call), ".Type") {
 								val = true
 							}
-							ms = append(ms, call)
 						}
+						ms = append(ms, call)
 					}
 				}
 			}
@@ -696,7 +714,7 @@ func runC07(c *Ctx) {
 			for _, m := range ms {
 				asInstr = append(asInstr, m)
 			}
-			ok := len(ms) >= 2 && ptr && val
+			ok := len(ms) >= 1 && ptr && val
 			why := ""
 			if ok {
 				// both calls on every path through the loop body
@@ -745,6 +763,71 @@ func runC07(c *Ctx) {
 				return in == ssa.Instruction(elem)
 			}, isOneOf(updates), nil)
 			c.Check(FuncKey(entry)+"::tests-every-collected-interface", elem.Pos(), len(updates) > 0 && t == nil, "every element of g.interfaceTypes must be put (unconditionally) into the set of interfaces that named types are tested against; path: %s", PathString(entry, path))
+		}
+	})
+	// R7.6: every declared constant and variable is recorded as the user of its
+	// type and of its initializer, for every name of the spec (only a spec
+	// without values may skip the initializer). `var a, b = f()` has one
+	// initializer for several names: each name uses it, otherwise what f
+	// mentions is reported as soon as the first name happens to be unreferenced.
+	c.Rule("R7.6", func() {
+		c.Floor("R7.6", 4)
+		decl := c.Func("unused", "(*graph).decl")
+		readName := Module + "/unused.graph.read"
+		noValues := LenZeroEdges(decl, func(v ssa.Value) bool { return DerivesLocal(v, IsFieldOf("ast.ValueSpec", "Values")) })
+		n := 0
+		for _, ci := range Calls(decl, false) {
+			objCall, ok := ci.(*ssa.Call)
+			if !ok || !strings.HasSuffix(CalleeName(&objCall.Call), "types.Info.ObjectOf") || !DerivesLocal(objCall.Call.Args[1], IsFieldOf("ast.ValueSpec", "Names")) {
+				continue
+			}
+			// only the per-name loops that register the object (not the constant-group ring)
+			registers := false
+			for _, sc := range CallsTo(decl, false, Module+"/unused.graph.see") {
+				if Derives(sc.Common().Args[1], func(v ssa.Value) bool { return v == ssa.Value(objCall) }) {
+					registers = true
+				}
+			}
+			if !registers {
+				continue
+			}
+			reads := func(field string) []ssa.Instruction {
+				var out []ssa.Instruction
+				for _, rc := range CallsTo(decl, false, readName) {
+					args := rc.Common().Args
+					if len(args) == 3 && DerivesLocal(args[1], IsFieldOf("ast.ValueSpec", field)) && Derives(args[2], func(v ssa.Value) bool { return v == ssa.Value(objCall) }) {
+						out = append(out, rc)
+					}
+				}
+				return out
+			}
+			isOneOf := func(list []ssa.Instruction) func(ssa.Instruction) bool {
+				return func(in ssa.Instruction) bool {
+					for _, x := range list {
+						if x == in {
+							return true
+						}
+					}
+					return false
+				}
+			}
+			end := func(in ssa.Instruction) bool {
+				if _, ok := in.(*ssa.Return); ok {
+					return true
+				}
+				return in == ssa.Instruction(objCall)
+			}
+			kind := "const-or-var#" + itoa(n)
+			n++
+			tr := reads("Type")
+			t1, p1 := PathAvoiding(decl, objCall, end, isOneOf(tr), nil)
+			c.Check(FuncKey(decl)+"::"+kind+"::uses-its-type", objCall.Pos(), len(tr) > 0 && t1 == nil, "every declared name is the user of the spec's type expression; path without g.read(vspec.Type, obj): %s", PathString(decl, p1))
+			vr := reads("Values")
+			t2, p2 := PathAvoiding(decl, objCall, end, isOneOf(vr), noValues)
+			c.Check(FuncKey(decl)+"::"+kind+"::uses-its-initializer", objCall.Pos(), len(vr) > 0 && t2 == nil && len(noValues) > 0, "every declared name is the user of its initializer (for `var a, b = f()` each of a and b uses f()); only a spec without values may skip it; path without g.read(vspec.Values[…], obj): %s", PathString(decl, p2))
+		}
+		if n < 2 {
+			c.Undecided("found %d per-name loops over ValueSpec.Names in (*graph).decl, expected the const and the var case", n)
 		}
 	})
 }
